@@ -404,7 +404,7 @@ fn scenario(
             last_seq = s;
             last_progress = Instant::now();
         }
-        if last_progress.elapsed() > Duration::from_secs(if evil_class { 1 } else { 3 }) {
+        if last_progress.elapsed() > Duration::from_secs(if evil_class { 1 } else { 3 } * run::slow_factor()) {
             let stuck: Vec<(usize, u32)> = hs
                 .iter()
                 .enumerate()
@@ -433,7 +433,7 @@ fn scenario(
             out.emit();
             std::process::exit(0);
         }
-        if t0.elapsed() > Duration::from_secs(60) {
+        if t0.elapsed() > Duration::from_secs(60 * run::slow_factor()) {
             out.inconclusive(format!("scenario {sidx} of shard {} exceeded the 60 s watchdog", args.shard));
             out.emit();
             std::process::exit(0);
